@@ -101,6 +101,22 @@ pub fn terminal_values(main: &ColMatrix<Felt>, aux: &ColMatrix<Felt>, chal: &[Fe
             bad.push((c, format!("{} ends at {} instead of 1", COLS[c], aux.get(c, last).as_int())));
         }
     }
+    // stack overflow table (docs/src/design/stack/main.md): empty at the start when there are at
+    // most 16 inputs, empty at the end when the final depth is 16
+    if tk::col_u64(main, tk::B0, 0) == 16 && aux.get(tk::AUX_STACK_P1, 0) != one {
+        bad.push((tk::AUX_STACK_P1, "stack-p1-overflow does not start at 1 although the initial depth is 16".into()));
+    }
+    if tk::col_u64(main, tk::B0, last) == 16 && aux.get(tk::AUX_STACK_P1, last) != one {
+        bad.push((tk::AUX_STACK_P1, "stack-p1-overflow does not end at 1 although the final depth is 16 (rows added to and removed from the overflow table differ)".into()));
+    }
+    // range checker (docs/src/design/range.md, "Communication bus"): b_range is 1 in the first row
+    // and 1 in the last row
+    if aux.get(tk::AUX_RANGE_B, 0) != one {
+        bad.push((tk::AUX_RANGE_B, "range-b does not start at 1".into()));
+    }
+    if aux.get(tk::AUX_RANGE_B, last) != one {
+        bad.push((tk::AUX_RANGE_B, "range-b does not end at 1 (range-check requests and the range table's multiplicities differ)".into()));
+    }
     // chiplets (docs/src/design/chiplets/main.md): the bus ends at 1; the virtual table ends at the
     // product of the rows of the kernel procedure table, one per kernel procedure (address = its
     // position in the kernel ROM, starting at 0)
